@@ -531,8 +531,9 @@ def c12(tier, seed):
         i, chunk = ic
         out = os.path.join(d, "pm-%d.ndjson" % i)
         with open(out, "w") as f:
-            for fen, pre in chunk:
-                f.write(json.dumps(sweepmod.sweep(binary, fen, pre)) + "\n")
+            for k, (fen, pre) in enumerate(chunk):
+                # the FEN is sent in its six-, five- and four-field form in turn
+                f.write(json.dumps(sweepmod.sweep(binary, fen, pre, fields=6 - (k + i) % 3)) + "\n")
         return (out, "position <fen> moves <prefix> s + show on the real binary for all 20480 move-shaped strings s (%d positions, first: %s %s)" % (len(chunk), chunk[0][0], " ".join(chunk[0][1])))
     jobs = core.pmap(mk, [(i, c) for i, c in enumerate(chunks) if c])
     game.judge_traces(run, jobs + pj, {"C12"})
@@ -1416,6 +1417,15 @@ def c15(tier, seed):
             steps = [{"send": "position fen %s moves %s" % (sroot, " ".join(smoves))}, {"send": go}]
             steps += ([{"sleep": 1.5}, {"send": "stop"}] if depth == 0 else []) + [{"waitbest": 20}, {"send": "isready"}, {"quit": True}]
             sessions.append({"id": "long-%d-d%d" % (n, depth), "binary": checked, "steps": steps})
+    # the same with a table that already holds a deep exact entry for the final position (searched first, from the short
+    # game): the starting depth then comes from the table, not from 1
+    for n in ([396] if quick else [392, 396]):
+        for go in ["go depth 200", "go infinite", "go depth 40"]:
+            sroot, smoves = shuffle_game(n)
+            steps = [{"send": "position fen " + sroot}, {"send": "go infinite"}, {"sleep": 1.0}, {"send": "stop"}, {"waitbest": 20},
+                     {"send": "position fen %s moves %s" % (sroot, " ".join(smoves))}, {"send": go}]
+            steps += ([{"sleep": 1.5}, {"send": "stop"}] if go == "go infinite" else []) + [{"waitbest": 20}, {"send": "isready"}, {"quit": True}]
+            sessions.append({"id": "deep-table-then-long-%d-%s" % (n, go.replace(" ", "")), "binary": checked, "steps": steps})
     # a richer long game: K+R v K+r shuffles keep captures and checks in the tree
     rr = "4k2r/8/8/8/8/8/8/R3K3 w - - 0 1"
     cyc = ["a1a2", "h8h7", "a2a1", "h7h8"]
